@@ -330,6 +330,8 @@ func (sh *Shared) buildIntrinsics() {
 	m["(time.Time).String"] = func(fr *frame, args []value) value { return "<time>" }
 	m["(time.Time).Format"] = func(fr *frame, args []value) value { return "<time>" }
 	m["(time.Duration).String"] = func(fr *frame, args []value) value { return "<duration>" }
+	// tickers are created by verifnd.NewTicker (call-site rewrite): plain channels fed by the harness
+	m["(*time.Ticker).Stop"] = func(fr *frame, args []value) value { return nil }
 	m["(time.Duration).Seconds"] = func(fr *frame, args []value) value {
 		// exact for concrete durations; a symbolic duration must be k*time.Second with
 		// |k| <= 2^33 provable from the path condition: then Seconds() == float64(k) exactly
